@@ -192,9 +192,35 @@ fn expected_concat(a: &str, da: &Dump, db: &Dump) -> Dump {
     x
 }
 
+/// every ordered pair of the statement-complete real-world programs
+pub struct RealPairs;
+impl Sweep for RealPairs {
+    fn name(&self) -> String {
+        "every ordered pair (A, B) of the statement-complete real-world programs of corpus/, and each program followed by each test-suite literal".into()
+    }
+    fn chunks(&self) -> usize {
+        crate::props::gramp::real_programs().len()
+    }
+    fn run_chunk(&self, chunk: usize, f: &mut dyn FnMut(Case)) {
+        let ps = crate::props::gramp::real_programs();
+        let a = &ps[chunk].1;
+        for (_, b) in ps.iter() {
+            f(Case::pair("A:closed-list", a.clone(), b.trim_start_matches('\u{feff}').to_string()));
+        }
+        if chunk < 4 {
+            for t in crate::gen::corpus().tests.iter() {
+                f(Case::pair("A:closed-list", a.clone(), t.trim_start_matches('\u{feff}').to_string()));
+            }
+        }
+    }
+}
+
 impl Property for C15 {
     fn id(&self) -> &'static str {
         "C15"
+    }
+    fn sweeps(&self, _tier: Tier, _seed: u64) -> Vec<Box<dyn Sweep>> {
+        vec![Box::new(RealPairs)]
     }
     fn rule(&self) -> String {
         "cases: pairs (A, B); A is a construct-grammar program, a concatenation of closed statements, a real-world prefix cut after ';', or an arbitrary fragment soup (plus one of a few closing suffixes) that the lexer itself leaves closed - closedness is decided by the hook snapshot (initial configuration at end of input) plus 'last token is a consumed ;/statement-level comment'; B is any generated string not starting with U+FEFF; oracle: lex(A+B) == lex(A) without EOF ++ shift(lex(B)), in the macro_sep and the default feature configuration; pairs whose A is not closed are discarded (counted); distinct = distinct (A,B); non-trivial = A and B non-empty and (A not from the grammar or B contains a macro token)".into()
